@@ -118,6 +118,8 @@ def shrink(pool, driver, case, learner, budget=60):
     """greedy shrink of a disagreeing case: drop events, drop tokens, simplify configuration"""
     cur = dict(case)
     steps = 0
+    if sum(len(c) + len(o) for c, o in case['events']) > 2000:
+        budget = min(budget, 6)      # a wide case costs seconds per evaluation: only drop whole events
 
     def still_fails(c):
         nonlocal steps
